@@ -10,6 +10,7 @@ class Hostile(concretise.Theme):
     regex = False
     meas = sorted([" m,0", 'a"q"', "a,b\r\nc", "b\nnl", "ba;'x'", "cé\U0001F600"] + ['d%03d,"x"' % i for i in range(300)])
     strs = sorted(["", "a,1", 'a"2"', "b\r\n3", "bü\n4", "c\t;5 "] + ["d%03d\n" % i for i in range(300)])
+    nums = [-1000000, -10.5, -3, -2, -1, -0.5] + [0.001 * i for i in range(300)]      # mostly negative; 0.0 only at rank 6
     tagkeys = sorted(["k,1", "_tag_x", 't_"k3"'])
     fieldkeys = sorted(["f\n1", "_field_y", "f_ 3"])
 
@@ -20,6 +21,7 @@ class Latin(concretise.Theme):
     regex = False
     meas = sorted(["0m", "aé", "ab,ü", 'b"ñ"', "ba\n", "c"] + ["d%03d" % i for i in range(300)])
     strs = sorted(["0", "aé", "ab;è", "b\r\n", "baß", "c,"] + ["d%03d" % i for i in range(300)])
+    nums = [0.25, 0.5, 1, 2, 2.5, 10] + [11.25 + 3 * i for i in range(300)]              # all positive, no zero
 
 
 def _edge_times():
@@ -78,12 +80,74 @@ class TimeFar(concretise.Theme):
     times = _t.__func__()
 
 
+def _random_tables(seed):
+    """value tables drawn at random (and then sorted): numbers of mixed sign, magnitude and type, strings over a
+    CSV-hostile alphabet, key names that contain one another, instants at irregular microsecond distances"""
+    import random
+    from datetime import datetime, timedelta, timezone
+    r = random.Random(seed)
+    n = 306
+
+    def numbers():
+        out = set()
+        while len(out) < 6:                 # the generators draw their values from the six lowest ranks
+            k = r.random()
+            if k < 0.35:
+                v = r.randrange(-6, 7)
+            elif k < 0.6:
+                v = round(r.uniform(-50, 50), r.choice([1, 2, 3]))
+            elif k < 0.7:
+                v = r.randrange(-10 ** 9, 10 ** 9)
+            elif k < 0.85:
+                v = r.uniform(-1, 1) * 10.0 ** r.randrange(-8, 12)
+            else:
+                v = float(r.randrange(-3, 4))
+            if v not in out:
+                out.add(v)
+        low = sorted(out)
+        top = int(max(1, low[-1])) + 1
+        return low + [top + 0.5 * i for i in range(300)]
+
+    def strings(nonempty, alphabet):
+        out = set()
+        while len(out) < 6:
+            s_ = "".join(r.choice(alphabet) for _ in range(r.choice([0, 1, 1, 2, 2, 3, 4, 6])))
+            if (nonempty and not s_) or s_ == "_none":
+                continue
+            out.add(s_)
+        return sorted(out) + ["\U0001F600%03d" % i for i in range(300)]        # filler sorts after every alphabet character
+
+    def keys(stem):
+        ks = {stem}
+        while len(ks) < 3:
+            base = r.choice(sorted(ks))
+            ks.add(base + r.choice(["_", "_1", "x", "_" + stem, " ", "1"]))
+        return sorted(ks)
+    t = datetime(1990, 1, 1, tzinfo=timezone.utc) + timedelta(days=r.randrange(0, 12000), microseconds=r.randrange(10 ** 6))
+    times = []
+    for _ in range(400):
+        times.append(t)
+        t = t + timedelta(microseconds=r.choice([1, 1, 2, 999, 10 ** 6, 3599 * 10 ** 6, 86400 * 10 ** 6 + 1, r.randrange(1, 10 ** 9)]))
+    alphabet = "aab_,;\"' \n\rZé0"
+    return {"nums": numbers(), "strs": strings(False, alphabet), "meas": strings(True, alphabet), "times": times,
+            "tagkeys": keys(r.choice(["k", "_tag", "t", "time"])), "fieldkeys": keys(r.choice(["f", "_field", "f_", "measurement"]))}
+
+
+def _random_theme(seed):
+    tabs = _random_tables(seed)
+    cls = type("Random%d" % seed, (concretise.Theme,), dict(tabs, name="random:%d" % seed, regex=False))
+    return cls()
+
+
 _ALL = {}
 
 
 def get(name):
     if name not in _ALL:
-        t = {"plain": concretise.Theme, "csv-hostile": Hostile, "latin": Latin, "time-edge": TimeEdge, "time-far": TimeFar}[name]()
+        if name.startswith("random:"):
+            t = _random_theme(int(name.split(":")[1]))
+        else:
+            t = {"plain": concretise.Theme, "csv-hostile": Hostile, "latin": Latin, "time-edge": TimeEdge, "time-far": TimeFar}[name]()
         t.check()
         _ALL[name] = t
     return _ALL[name]
